@@ -520,6 +520,21 @@ theorem C16_built_converter_sound (files : List (UnitsFile Rat)) (conv : Bld.Con
     (hr : ratiosNonzero files = true) : (convOfBuilt conv).Sound ∧ (convOfBuilt conv).wf = true :=
   bridge_build files conv h hr
 
+/-- Zero ratios are the ONLY way a successfully built converter can fail to be sound: for every successful build (any
+    files, no premise), the translated converter is `Sound` if and only if no unit of the built converter has ratio 0.
+    (`ratiosNonzero files` above is the sufficient condition on the FILES; it is not necessary, because a later extend
+    block may replace a zero ratio — the condition on the RESULT is exact.) -/
+theorem C16_built_sound_iff (files : List (UnitsFile Rat)) (conv : Bld.Converter Rat) (h : build files = .ok conv) :
+    (convOfBuilt conv).Sound ↔ ∀ u, u ∈ conv.units → u.ratio ≠ 0 := by
+  constructor
+  · intro hs u hu
+    obtain ⟨i, hi⟩ := List.getElem?_of_mem hu
+    exact hs.ratio_ne (unitOfBuilt i u) ((mem_allUnits conv _).mpr ⟨i, u, hi, rfl⟩)
+  · intro hr
+    have hk := bs_build (G := fun _ : Rat => True) (fun _ _ _ => trivial) files conv h
+      (fun f _ => ⟨fun _ _ _ _ _ _ => trivial, fun _ _ _ _ _ _ => trivial⟩)
+    exact bridge_sound conv (bridge_builtOK files conv h) (fun u hu => ⟨hr u hu, (hk u hu).2⟩)
+
 /-- The translation loses nothing of the best lists (every arithmetic instance, no premise on the ratios): for every
     quantity and system the best list of the translated converter is a list `l` of that quantity's store in the built
     converter (the unified one, or the one of the system), with the same thresholds and unit ids in the same order —
